@@ -142,14 +142,17 @@ func (t *rtree) paths(n *rnode, prefix string, out *[]string) {
 // ---- world ----------------------------------------------------------------------------------
 
 type world struct {
-	r        *lib.Run
-	cache    *filesys.FsCache
-	ref      *rtree
-	universe *universe
-	ever     map[string]bool // every path that existed in the reference tree during this sequence
-	nid      int
-	selfSub  bool // a move into the mover's own subtree has happened: mismatches are only recorded
-	gens     int
+	r            *lib.Run
+	cache        *filesys.FsCache
+	ref          *rtree
+	universe     *universe
+	ever         map[string]bool // every path that existed in the reference tree during this sequence
+	nid          int
+	selfSub      bool // a move into the mover's own subtree has happened: mismatches are only recorded
+	gens         int
+	evals        int
+	selfMoves    int
+	selfMismatch int
 }
 
 type universe struct {
@@ -220,7 +223,7 @@ func (w *world) apply(o op) (extra string) {
 	case "move":
 		if isSelfSubtree(o.P, o.Q) && w.ref.find(o.P) != nil {
 			w.selfSub = true
-			w.r.Count("moves_into_own_subtree", 1)
+			w.selfMoves++
 		}
 		w.cache.Move(util.FullPath(o.P), util.FullPath(o.Q))
 		w.ref.move(o.P, o.Q)
@@ -231,12 +234,32 @@ func (w *world) apply(o op) (extra string) {
 
 // compare checks every path of the universe, every path of the reference tree and
 // every path that ever existed in this sequence.
-func (w *world) compare() (bad []string, n int) {
+func depth(n *rnode) int {
+	d := 0
+	for _, c := range n.children {
+		if x := 1 + depth(c); x > d {
+			d = x
+		}
+	}
+	return d
+}
+
+// noteEver remembers the paths of the reference tree that lie outside the universe
+// (the universe holds every path up to depth 3 over the names in use).
+func (w *world) noteEver() {
+	if depth(w.ref.root) <= 3 {
+		return
+	}
 	var cur []string
 	w.ref.paths(w.ref.root, "", &cur)
 	for _, p := range cur {
-		w.ever[p] = true
+		if !w.universe.set[p] {
+			w.ever[p] = true
+		}
 	}
+}
+
+func (w *world) compare() (bad []string, n int) {
 	check := func(p string) {
 		n++
 		got, want := w.cache.GetFsNode(util.FullPath(p)), w.ref.get(p)
@@ -248,9 +271,7 @@ func (w *world) compare() (bad []string, n int) {
 		check(p)
 	}
 	for p := range w.ever {
-		if !w.universe.set[p] {
-			check(p)
-		}
+		check(p)
 	}
 	sort.Strings(bad)
 	return
@@ -270,11 +291,6 @@ func desc(n fs.Node) string {
 	return fmt.Sprintf("%T", n)
 }
 
-func classify(ops []op) string {
-	last := ops[len(ops)-1]
-	return last.Kind
-}
-
 // runSeq executes ops; when checkAll is false only the state after the last op is
 // compared (every proper prefix is a sequence of its own in the exhaustive part).
 func runSeq(r *lib.Run, universe *universe, ops []op, checkAll bool, mode string) (w *world) {
@@ -286,10 +302,11 @@ func runSeq(r *lib.Run, universe *universe, ops []op, checkAll bool, mode string
 	}()
 	for i, o := range ops {
 		extra := w.apply(o)
+		w.noteEver()
 		if extra != "" {
-			r.Eval(1)
+			w.evals++
 			if w.selfSub {
-				r.Count("mismatch_after_move_into_own_subtree", 1)
+				w.selfMismatch++
 				return
 			}
 			r.Violation(lib.Sig{"op": o.Kind, "class": "ensure-contract", "mode": mode}, map[string]interface{}{"ops": ops[:i+1], "mode": mode, "msg": extra})
@@ -299,11 +316,11 @@ func runSeq(r *lib.Run, universe *universe, ops []op, checkAll bool, mode string
 			continue
 		}
 		bad, n := w.compare()
-		r.Eval(n)
+		w.evals += n
 		if len(bad) > 0 {
 			if w.selfSub {
 				// the reference tree is not defined by the statement after such a move: recorded only
-				r.Count("mismatch_after_move_into_own_subtree", 1)
+				w.selfMismatch++
 				return
 			}
 			if len(bad) > 8 {
@@ -371,7 +388,7 @@ func exhaustive(r *lib.Run, label string, alpha []op, universe *universe, L int,
 		go func(lo, hi int64) {
 			defer wg.Done()
 			ops := make([]op, L)
-			var nontriv, seqs int64
+			var nontriv, seqs, evals, selfMoves, selfMismatch int64
 			for idx := lo; idx < hi; idx++ {
 				x := idx
 				hasInsert, hasMove := false, false
@@ -387,7 +404,10 @@ func exhaustive(r *lib.Run, label string, alpha []op, universe *universe, L int,
 						hasMove = true
 					}
 				}
-				runSeq(r, universe, ops, false, "opaque")
+				w := runSeq(r, universe, ops, false, "opaque")
+				evals += int64(w.evals)
+				selfMoves += int64(w.selfMoves)
+				selfMismatch += int64(w.selfMismatch)
 				seqs++
 				if hasInsert && hasMove {
 					nontriv++
@@ -399,6 +419,9 @@ func exhaustive(r *lib.Run, label string, alpha []op, universe *universe, L int,
 					break
 				}
 			}
+			r.Eval(int(evals))
+			r.Count("moves_into_own_subtree", selfMoves)
+			r.Count("mismatch_after_move_into_own_subtree", selfMismatch)
 			r.Count("exhaustive_sequences_"+label, seqs)
 			r.Count("exhaustive_nontrivial_sequences_"+label, nontriv)
 		}(lo, hi)
@@ -520,7 +543,8 @@ func main() {
 			Mode string `json:"mode"`
 		}
 		r.Must(r.LoadReplay(&d), "load replay")
-		runSeq(r, uFull, d.Ops, true, d.Mode)
+		w := runSeq(r, uFull, d.Ops, true, d.Mode)
+		r.Eval(w.evals)
 		r.Nontrivial("replay")
 		r.Nontrivial("replay2")
 		r.Finish(0)
@@ -559,6 +583,9 @@ func main() {
 			r.Case(map[string]interface{}{"mode": mode, "ops": ops})
 		}
 		w := runSeq(r, uFull, ops, true, mode)
+		r.Eval(w.evals)
+		r.Count("moves_into_own_subtree", int64(w.selfMoves))
+		r.Count("mismatch_after_move_into_own_subtree", int64(w.selfMismatch))
 		r.Count("random_sequences_"+mode, 1)
 		if w != nil && w.gens > 0 {
 			r.Count("ensure_generator_calls", int64(w.gens))
